@@ -188,6 +188,8 @@ def cases(tier, seed=0):
   cs += _ea.energy_override_cases('setfl_fs', tier)
   cs += _ea.energy_override_cases('DL_POLY_EAM_fs', tier)
   cs += _ea.cutoff_arg_cases('setfl_fs', tier)
+  cs += _ea.long_label_cases('setfl_fs', tier)
+  cs += _ea.long_label_cases('DL_POLY_EAM_fs', tier)
   return cs
 
 
